@@ -210,6 +210,10 @@ type Focus struct {
 	low     map[string]int64 // the same, counting planned unstakes only (a planned stake may be refused)
 	opened  []plannedReq     // requests opened in the block being drawn
 	used    map[string]bool  // (request, voter) pairs already voted in the block being drawn
+
+	down      []int // validators whose node is down from height downFrom on (absent from every commit)
+	downFrom  int64
+	downDrawn bool
 }
 
 type plannedReq struct{ id, accused string }
@@ -1019,6 +1023,14 @@ func (f *Focus) DrawEnv(txs []txgen.Tx) sim.BlockSpec {
 	}
 	for _, tx := range txs {
 		spec.Txs = append(spec.Txs, tx.Bytes)
+	}
+	if !f.downDrawn {
+		f.downDrawn = true
+		f.down, f.downFrom = hist.DrawDown(f.u().N, len(f.W.G.U.Vals))
+	}
+	if da := hist.DownAbsent(f.W, f.down, f.downFrom); len(da) > 0 {
+		spec.Absent = append(spec.Absent, da...)
+		f.Feat["block-with-a-node-down"]++
 	}
 	ProtectAnchor(f.W, &spec, f.Excl)
 	return spec
